@@ -30,7 +30,7 @@ type Tape struct {
 	RunSeed uint64 `json:"run_seed"`
 	Point   string `json:"point"`
 	Item    int    `json:"item"`
-	Mode    string `json:"mode"` // prefix | subst | field | flow modes (see flows_test.go)
+	Mode    string `json:"mode"` // prefix | subst | field | shape | flow modes (see flows_test.go)
 	From    int    `json:"from"`
 	Count   int    `json:"count"`
 	Sample  bool   `json:"sample,omitempty"` // draw Count deliveries at random from the mode's space instead of a contiguous range
@@ -101,6 +101,99 @@ func fieldSites(kind string, b []byte) []int {
 	return out
 }
 
+// ---- mode "shape": structurally valid re-encodings.  The item is parsed into its TLV tree (nested
+// encodings inside OCTET STRINGs included), one element is emptied, shortened, lengthened,
+// duplicated or removed, and every enclosing length is re-encoded, so that the consumer meets a
+// well-formed message whose one element has a size or multiplicity it may not expect (empty
+// sequences where an element is indexed, bit strings longer or shorter than 32 bits, ...).
+type tnode struct {
+	tag     byte
+	content []byte   // primitive elements
+	kids    []*tnode // constructed elements and nested encodings
+}
+
+func parseTree(b []byte, depth int) ([]*tnode, bool) {
+	var out []*tnode
+	for len(b) > 0 {
+		n, rest, err := der.Parse(b)
+		if err != nil {
+			return nil, false
+		}
+		t := &tnode{tag: n.Tag, content: n.Content}
+		nestedOK := n.Tag == der.TagOctetString && len(n.Content) > 2 && (n.Content[0] == 0x30 || n.Content[0]&0xe0 == 0x60 || n.Content[0]&0xe0 == 0xa0)
+		if (n.Constructed() || nestedOK) && depth < 24 {
+			if ks, ok := parseTree(n.Content, depth+1); ok {
+				t.kids = ks
+				if len(ks) == 0 {
+					t.kids = []*tnode{}
+				}
+			} else if n.Constructed() && !nestedOK {
+				t.kids = nil // keep as opaque content
+			}
+		}
+		out = append(out, t)
+		b = rest
+	}
+	return out, true
+}
+
+func flatten(ns []*tnode, out *[]*tnode) {
+	for _, n := range ns {
+		*out = append(*out, n)
+		if n.kids != nil {
+			flatten(n.kids, out)
+		}
+	}
+}
+
+var shapeNames = []string{"emptied", "one byte shorter", "one byte longer", "four bytes longer", "leading zero byte added", "duplicated", "removed"}
+
+func encodeTree(ns []*tnode, target *tnode, variant int) []byte {
+	var out []byte
+	for _, n := range ns {
+		var body []byte
+		if n.kids != nil {
+			body = encodeTree(n.kids, target, variant)
+		} else {
+			body = n.content
+		}
+		if n != target {
+			out = append(out, der.TLV(n.tag, body)...)
+			continue
+		}
+		switch variant {
+		case 0:
+			out = append(out, der.TLV(n.tag, nil)...)
+		case 1:
+			if len(body) > 0 {
+				body = body[:len(body)-1]
+			}
+			out = append(out, der.TLV(n.tag, body)...)
+		case 2:
+			out = append(out, der.TLV(n.tag, append(append([]byte{}, body...), 0x00))...)
+		case 3:
+			out = append(out, der.TLV(n.tag, append(append([]byte{}, body...), 0xff, 0xff, 0xff, 0xff))...)
+		case 4:
+			out = append(out, der.TLV(n.tag, append([]byte{0x00}, body...))...)
+		case 5:
+			e := der.TLV(n.tag, body)
+			out = append(append(out, e...), e...)
+		case 6:
+		}
+	}
+	return out
+}
+
+func shapeNodes(item []byte) ([]*tnode, []*tnode) {
+	roots, ok := parseTree(item, 0)
+	if !ok {
+		return nil, nil
+	}
+	var all []*tnode
+	flatten(roots, &all)
+	return roots, all
+}
+
 var fieldVals = []byte{0x00, 0x01, 0x7f, 0x80, 0x81, 0x82, 0x83, 0x84, 0x88, 0xff}
 
 // space size of a mode for an item
@@ -116,6 +209,12 @@ func spaceOf(p *point, item []byte, mode string) int {
 			n = len(item) * 6 // 32-bit field set to 0, 1, max; 64-bit field set to -1, -8, 2^63
 		}
 		return n
+	case "shape":
+		if p.kind != "der" {
+			return 0
+		}
+		_, all := shapeNodes(item)
+		return len(all) * len(shapeNames)
 	}
 	return 0
 }
@@ -178,6 +277,13 @@ func damage(p *point, item []byte, mode string, d int) (out []byte, desc string,
 			}
 		}
 		return out, fmt.Sprintf("32-bit field at %d -> %s", pos, []string{"0", "1", "max"}[k]), true
+	case "shape":
+		roots, all := shapeNodes(item)
+		ni, v := d/len(shapeNames), d%len(shapeNames)
+		if p.kind != "der" || ni >= len(all) {
+			return nil, "", false
+		}
+		return encodeTree(roots, all[ni], v), fmt.Sprintf("element %d (tag %#02x, %d bytes) %s, enclosing lengths re-encoded", ni, all[ni].tag, len(all[ni].content), shapeNames[v]), true
 	}
 	return nil, "", false
 }
